@@ -993,7 +993,17 @@ func (x *Exec) refsOf(v Value) []*Term {
 	return nil
 }
 
-func (x *Exec) checkAlloc(fr *Frame, st *State, in ssa.Instruction, n *Term) {}
+// checkAlloc: `check alloc <bound>` in the contract of the function under verification asks that every
+// slice allocation of non-constant size is at most <bound> (an expression over the current state,
+// typically "what the remaining input could describe").
+func (x *Exec) checkAlloc(fr *Frame, st *State, in ssa.Instruction, n *Term) {
+	fc := x.contracts[contractKey(x.top)]
+	if fc == nil || fc.AllocBound == nil || n.IsLit || st.dry {
+		return
+	}
+	b := x.evalSpec(&specScope{x: x, fr: fr, st: st, old: fr.entry}, fc.AllocBound.Expr)
+	x.oblige(fr, st, "alloc", x.src(fr.fn, in.Pos(), "make")+":"+fc.AllocBound.Label, in.Pos(), BVCmp("bvsle", n, x.idx64(b)))
+}
 
 // reifyPtr gives an interior pointer a symbolic identity so that it can travel through interfaces.
 func (x *Exec) reifyPtr(st *State, v Value) Value {
